@@ -864,6 +864,15 @@ func (e *Engine) localValue(fr *Frame, s *State, lr LocalRef, head *ssa.BasicBlo
 		}
 		return e.val(fr, x)
 	}
+	if lr.Entry {
+		name := strings.TrimPrefix(lr.Name, "gvcentry_")
+		for _, p := range fr.fn.Params {
+			if p.Name() == name {
+				return e.val(fr, p)
+			}
+		}
+		e.unsupported("entry value of %s: no such parameter", name)
+	}
 	idx := e.allocsByPos(fr.fn)
 	key := fmt.Sprintf("%s:%d:%d", lr.Decl.Filename, lr.Decl.Line, lr.Decl.Column)
 	a := idx[key]
